@@ -317,13 +317,33 @@ def _resolve_npath(source: NixSourceCode, npath: str) -> _ResolvedNPath:
     )
 
 
+_PLAIN_QUOTED_NAME_RE = re.compile(r'^"([^"\\$]*)"\Z')
+
+
+def _canonical_attr_name(name: str) -> str:
+    """Reduce a rendered attribute name to what Nix reads, where that is cheap to see.
+
+    `"foo"` and `foo` (also `"foo-bar"` and `foo-bar`) denote the same attribute;
+    quoted names with escapes or interpolation are left as spelled.
+    """
+    match = _PLAIN_QUOTED_NAME_RE.match(name)
+    if match is not None:
+        return match.group(1)
+    return name
+
+
+def _same_attr_name(left: str, right: str) -> bool:
+    """Compare two rendered attribute names by the name Nix reads."""
+    return left == right or _canonical_attr_name(left) == _canonical_attr_name(right)
+
+
 def _find_binding(target_set: AttributeSet, key: str) -> Binding | None:
     """Find the first binding with a matching name."""
     return next(
         (
             binding
             for binding in target_set.values
-            if isinstance(binding, Binding) and binding.name == key
+            if isinstance(binding, Binding) and _same_attr_name(binding.name, key)
         ),
         None,
     )
@@ -334,7 +354,7 @@ def _find_named_binding(
 ) -> Binding | None:
     """Find a binding by name, optionally filtering on nested flag."""
     for item in values:
-        if not isinstance(item, Binding) or item.name != key:
+        if not isinstance(item, Binding) or not _same_attr_name(item.name, key):
             continue
         if nested is None or item.nested == nested:
             return item
@@ -356,7 +376,7 @@ def _find_attrpath_leaf(
 def _find_attrpath_root(target_set: AttributeSet, root: str) -> Binding | None:
     """Locate the root binding for attrpath-derived entries."""
     for item in target_set.values:
-        if isinstance(item, Binding) and item.nested and item.name == root:
+        if isinstance(item, Binding) and item.nested and _same_attr_name(item.name, root):
             return item
     return None
 
@@ -499,6 +519,9 @@ def _resolve_npath_parent(
     current = target_set
     for segment in segments[:-1]:
         key = _format_attr_name(segment)
+        existing = _find_binding(current, key)
+        if existing is not None:
+            key = existing.name
         try:
             value = current[key]
         except KeyError:
@@ -515,6 +538,9 @@ def _resolve_npath_parent(
         current = value
 
     final_key = _format_attr_name(segments[-1])
+    existing = _find_binding(current, final_key)
+    if existing is not None:
+        final_key = existing.name
     return current, final_key
 
 
@@ -683,7 +709,7 @@ def _remove_value_in_attrset(target_set: AttributeSet, npath: str) -> None:
         binding = _find_binding(target_set, key)
         if binding is None:
             raise KeyError(key)
-        del target_set[key]
+        del target_set[binding.name]
         return
 
     if attrpath_root is not None:
@@ -944,7 +970,7 @@ def remove_value(source: NixSourceCode, npath: str) -> str:
         binding = _find_binding(target_set, key)
         if binding is None:
             raise KeyError(key)
-        del target_set[key]
+        del target_set[binding.name]
         return source.rebuild()
     if resolution.attrpath_root is not None:
         _remove_attrpath_value(target_set, segments)
